@@ -2446,7 +2446,8 @@ func (x *Exec) callSiteClauses(fr *Frame, fn *ssa.Function, args []Value, pos to
 				}
 			}
 			if !found {
-				v, ok := x.binderValue(fr, li, saved, p.Name())
+				// outer_<name>: the caller's variable <name>, when the callee has a parameter of that name too
+				v, ok := x.binderValue(fr, li, saved, strings.TrimPrefix(p.Name(), "outer_"))
 				if !ok {
 					unsup("call clause %s: cannot bind %q at the call of %s (contract unbound)", c.Label, p.Name(), shortFn(fn))
 				}
